@@ -19,7 +19,7 @@ ASSUMPTIONS = ['wind segment switches may lag by one integration step: floor inc
                'convergence is checked on a 4-rung ladder, not in the limit', 'spin drift excluded (twist 0); it is C05']
 
 DIMS = dict(dm=['G1', 'RA4', 'custom3', 'multi'], bc=[.05, .9], mv=[1150.0, 4000.0, 600.0], sh=[0.0, -1.0], look=[20.0, -30.0], zero=[0.0, 3.0],
-            rel=[1.0], cant=[30.0, 90.0], atmo=['icao5k', 'hot', 'vac'], wind=['cross', 'head', 'tail', 'seg3', 'q60', 'calm_wind', 'wind_calm_wind', 'mixed_units'], R=[2400.0])
+            rel=[1.0], cant=[30.0, 90.0], atmo=['icao5k', 'hot', 'vac'], wind=['cross', 'head', 'tail', 'seg3', 'q60', 'calm_wind', 'wind_calm_wind', 'mixed_units', 'finite'], R=[2400.0])
 EVERYTHING = [
     dict(dm='G1', bc=.3, mv=1150.0, look=20.0, cant=30.0, atmo='hot', wind='seg3', zero=3.0, sh=0.0, rel=1.0),
     dict(mv=1150.0, wind='seg3'), dict(mv=1150.0, wind='seg3', dm='G1', look=20.0), dict(mv=1150.0, wind='q60'),
@@ -133,8 +133,12 @@ def reuse(cell):
     calc.fire(shot, U.Foot(R), U.Foot(R / 4))
     out = []
     n = 0
-    base_v = BASE[dim] if dim != 'R' else None
-    for v in list(DIMS[dim]) + [base_v] + list(DIMS[dim])[:1]:
+    base_v = BASE[dim] if dim not in ('R', 'wind_inplace') else None
+    values = list(DIMS[dim]) + [base_v] + list(DIMS[dim])[:1] if dim != 'wind_inplace' else [[10, 90, None], [25, 200, None], [25, 200, 100], [0, 200, 100], [12, 45, None]]
+    if dim == 'wind_inplace':
+        shot.winds = make_winds([[5, 90, None]])
+        calc.fire(shot, U.Foot(R), U.Foot(R / 4))
+    for v in values:
         spec[dim] = v
         if dim == 'bc' and hasattr(shot.ammo.dm, 'BC'):
             shot.ammo.dm.BC = v
@@ -156,6 +160,11 @@ def reuse(cell):
             shot.atmo = make_atmo(v)
         elif dim == 'wind':
             shot.winds = make_winds(v)
+        elif dim == 'wind_inplace':
+            # the Wind objects the shot already holds are edited in place (speed, direction, until-distance)
+            w_ = shot.winds[0]
+            w_.velocity, w_.direction_from, w_.until_distance = U.MPH(v[0]), U.Degree(v[1]), (U.Yard(v[2]) if v[2] is not None else pb.Wind().until_distance)
+            spec['wind'] = [list(v)]
         n += 1
 
         def fire(c, s_):
@@ -197,5 +206,5 @@ def plan(tier):
     cells += [dict(c) for c in EVERYTHING]
     if tier == 'thorough':
         cells += [dict(c, rungs=[1.0, 0.5, 0.25, 0.125, 0.0625, 0.03125]) for c in deviations(1)[:12]]
-    ru = [[d, h] for d in DIMS if d != 'R' for h in (0.5, 0.25)]
+    ru = [[d, h] for d in list(DIMS) + ['wind_inplace'] if d != 'R' for h in (0.5, 0.25)]
     return [('ladder', cells), ('reuse', ru)]
